@@ -1198,6 +1198,20 @@ func g3Corpus() []G3Case {
 			Raw: "ip access-list extended RCA\n permit ip any host 10.0.0.2\ncrypto map M 20 ipsec-isakmp\n set peer 1.2.3.4\n set ip access-group RCA out\n" +
 				"interface Ethernet0\n crypto map M\n"},
 		{Model: "IOS", V4: "ip route 10.20.0.0 255.248.0.0 10.1.2.3\n", Raw: "ip route 10.22.0.0 255.255.0.0 10.1.2.4\nip route 10.20.0.0 255.248.0.0 10.1.2.3\n"},
+		// IPv6 file that references one non-simple object from two new commands: the model answers
+		// `unmodelled` (second read of an object whose commands Go has mutated), the text-line oracle judges the real result
+		{Model: "ASA",
+			V4: "access-list A1 extended permit ip host 10.1.1.1 any4\naccess-list A1 extended deny ip any4 any4\naccess-group A1 in interface if0\n",
+			V6: "access-list A6 extended permit ip host 1000::1 any6\naccess-list A6 extended deny ip any6 any6\naccess-group A6 in interface if1\naccess-group A6 out interface if2\n"},
+		{Model: "ASA",
+			V4: "access-list A1 extended permit ip host 10.1.1.1 any4\naccess-list A1 extended deny ip any4 any4\naccess-group A1 in interface if0\n" +
+				"object-group network g4\n network-object host 10.9.9.9\naccess-list A2 extended permit ip object-group g4 any4\naccess-group A2 in interface if3\n",
+			V6: "object-group network g6\n network-object host 10.9.9.9\naccess-list A6 extended permit ip object-group g6 any6\naccess-list A6 extended deny ip any6 any6\n" +
+				"access-group A6 in interface if1\naccess-group A6 out interface if2\n",
+			Raw: "access-list X6 extended permit ip host 1000::9 any6\naccess-group X6 in interface if1\n"},
+		{Model: "IOS",
+			V4: "ip access-list extended A1\n permit ip host 10.1.1.1 any\n deny ip any any\ninterface Ethernet0\n ip address 10.0.0.1 255.255.255.0\n ip access-group A1 in\n",
+			V6: "ip access-list extended A6\n permit ip host 10.6.6.6 any\n deny ip any any\ninterface Ethernet1\n ip access-group A6 in\ninterface Ethernet2\n ip access-group A6 in\n"},
 	}
 }
 
